@@ -11,6 +11,19 @@ PROPS = {
         "modules": ["Capnp.Gen.Core"], "gen": True, "rule": "every go2lean target x boundary/random argument tuples", "trusted": [],
         "shards": {"quick": 1, "thorough": 8},
     },
+    "C01": {
+        "modules": ["Capnp.Props.C01"],
+        "gen": True,
+        "rule": "messages = spec-valid trees laid out by an independent reference encoder over 1-3 segments with near/far/double-far "
+                "edges (40%), the same with 1-3 words overwritten by boundary-valued pointer words / field tweaks / truncated segments (40%), "
+                "raw hostile pointer words (20%); limits T from {8..2^40}, D from {1..5,63,64,65}; every message is traversed through the public "
+                "accessors (Root, Struct.Ptr/UintN/Bit/HasPtr, List.Struct, PointerList/BitList/UIntNList.At, Text/Data) in a fixed canonical order "
+                "and the rendered trace + remaining traversal budget is compared with the model's. Non-trivial: >= 2 words of segment data; distinct by hash.",
+        "trusted": COMMON_TRUSTED + ["go2lean translation rules (validated by the GEN stream included in this run)"],
+        "assumptions": ["segments handed to the reader have cap == len (the harness allocates them so) and are shorter than 4 GiB"],
+        "shards": {"quick": 4, "thorough": 16},
+        "no_panic": ["read "],
+    },
     "C13": {
         "modules": ["Capnp.Props.C13"],
         "gen": False,
